@@ -152,7 +152,7 @@ FrameRules(s, e) ==
   \o (LET flip == {i \in DOMAIN gs : \E j \in DOMAIN PrevGroups(s) :
                       /\ PrevGroups(s)[j].b = gs[i].b /\ Terminal(PrevGroups(s)[j].fl)
                       /\ PrevGroups(s)[j].fl # gs[i].fl}
-      IN IF flip # {} THEN <<B("C11", "row-terminal-state-changed", e, ToString({gs[i].b : i \in flip}))>> ELSE <<>>)
+      IN IF flip # {} THEN <<B("C11,C09", "row-terminal-state-changed", e, ToString({gs[i].b : i \in flip}))>> ELSE <<>>)
   \* C09/C03: a completed row shows current = total
   \o (LET odd == {i \in DOMAIN gs : gs[i].fl = "C" /\ gs[i].cur # gs[i].tot}
       IN IF odd # {} THEN <<B("C03", "completed-row-not-full", e, ToString({gs[i].b : i \in odd}))>> ELSE <<>>)
@@ -213,18 +213,21 @@ OrderRules(s, e) ==
       Popping(k, b) == MaybePopping(k, b) /\ (k < Len(F) \/ FinalRendered(s))
       \* a priority change that returned after the bar's previous frame and before its pop frame
       PrioRace(k, b) == b \in DOMAIN s.prioAt /\ k > 1 /\ s.prioAt[b] > F[k - 1].seq /\ s.prioAt[b] < F[k].seq
-      badk == {k \in DOMAIN F :
+      IsSucc(b) == b \in DOMAIN s.bars /\ s.bars[b].after # ""
+      Badk(succ) == {k \in DOMAIN F :
                  /\ ~F[k].exempt
                  /\ \E i \in 1..(Len(F[k].groups) - 1) :
                       LET x == F[k].groups[i].b  y == F[k].groups[i + 1].b IN
                       /\ x \in DOMAIN F[k].prio /\ y \in DOMAIN F[k].prio
                       /\ ~MaybePopping(k, x) /\ ~MaybePopping(k, y)
-                      /\ F[k].prio[x] > F[k].prio[y]}
+                      /\ F[k].prio[x] > F[k].prio[y]
+                      /\ (IsSucc(x) \/ IsSucc(y)) = succ}
       BadP(race) == {k \in DOMAIN F :
                  \E i \in 1..(Len(F[k].groups) - 1) :
                       LET x == F[k].groups[i].b  y == F[k].groups[i + 1].b IN
                       ~Popping(k, x) /\ Popping(k, y) /\ PrioRace(k, y) = race}
-  IN (IF badk # {} THEN <<B("C06", "order", e, ToString(badk))>> ELSE <<>>)
+  IN (IF Badk(FALSE) # {} THEN <<B("C06", "order", e, ToString(Badk(FALSE)))>> ELSE <<>>)
+     \o (IF Badk(TRUE) # {} THEN <<B("C06,C17", "order/successor-position", e, ToString(Badk(TRUE)))>> ELSE <<>>)
      \o (IF BadP(FALSE) # {} THEN <<B("C18", "popped-not-on-top", e, ToString(BadP(FALSE)))>> ELSE <<>>)
      \o (IF BadP(TRUE) # {} THEN <<B("C18", "popped-not-on-top/priority-changed-before-pop", e, ToString(BadP(TRUE)))>> ELSE <<>>)
 
@@ -315,7 +318,7 @@ FinalRules(s, e) ==
 GetRules(s, e) ==
   \* C11: never both; once a terminal state was reported it stays
   (IF e.completed /\ e.aborted THEN <<B("C11", "completed-and-aborted", e, e.b)>> ELSE <<>>)
-  \o (IF e.b \in s.compSeen /\ (~e.completed \/ e.aborted) THEN <<B("C11", "completed-unstable", e, e.b)>> ELSE <<>>)
+  \o (IF e.b \in s.compSeen /\ (~e.completed \/ e.aborted) THEN <<B("C11,C09", "completed-unstable", e, e.b)>> ELSE <<>>)
   \o (IF e.b \in s.abrtSeen /\ (~e.aborted \/ e.completed) THEN <<B("C11", "aborted-unstable", e, e.b)>> ELSE <<>>)
   \* C02: after the container is done getters keep returning the final values
   \o (IF e.b \in DOMAIN s.final /\ (s.final[e.b].cur # e.cur \/ s.final[e.b].completed # e.completed
@@ -430,6 +433,7 @@ Check(s, e) ==
          IN <<B(ps, "hang" \o why, e, ToString(<<e.kind, e.pending>>))>>
     [] e.ev = "panic" ->
          <<B("C02", "panic" \o (IF s.detached # {} /\ e.closedsend THEN "/detached-push" ELSE ""), e, e.msg)>>
+    [] e.ev = "race" -> IF e.lib THEN <<B("C10", "data-race", e, e.msg)>> ELSE <<>>
     [] e.ev = "latewrite" -> <<B("C03", "write-after-wait", e, "late")>>
     [] e.ev = "quiesce" -> FinalRules(s, e) \o OrderRules(s, e)
     [] OTHER -> <<>>
